@@ -34,7 +34,28 @@ IsDy(t) == t % 125000 = 0
 RoleOf(m) == IF m.name = "get_registry" THEN (IF m.sent THEN "client" ELSE "server") ELSE "unknown"
 
 NewConn(tag, ord, role) ==
-  [tag |-> tag, ord |-> ord, role |-> role, open |-> TRUE, db |-> EmptyDb, n |-> 0, ghosts |-> 0]
+  [tag |-> tag, ord |-> ord, role |-> role, open |-> TRUE, db |-> EmptyDb, n |-> 0, ghosts |-> 0,
+   title |-> <<>>, appid |-> <<>>]
+
+\* A connection is given a title by what its client says about itself (shown by the `connection` command, and the
+\* application id can be used to select the connection): set_app_id names the application (the title is the last
+\* dotted part), set_title only counts while there is no title yet, a layer surface's namespace always counts.
+\* Empty strings and arguments of another kind are ignored.
+RECURSIVE LastPart(_)
+LastPart(cs) == IF \E i \in 1..Len(cs) : cs[i] = "."
+                THEN LastPart(SubSeq(cs, (CHOOSE i \in 1..Len(cs) : cs[i] = "." /\ \A j \in 1..(i - 1) : cs[j] # ".") + 1, Len(cs)))
+                ELSE cs
+StrArg(rec, i) == IF Len(rec.args) >= i /\ rec.args[i].k = "str" THEN CharsOf(rec.args[i].s) ELSE <<>>
+Titled(c, rec) ==
+  CASE rec.name = "set_app_id" ->
+         LET s == StrArg(rec, 1) IN
+         IF s = <<>> THEN c
+         ELSE [c EXCEPT !.appid = s, !.title = IF LastPart(s) = <<>> THEN @ ELSE LastPart(s)]
+    [] rec.name = "set_title" /\ c.title = <<>> ->
+         IF StrArg(rec, 1) = <<>> THEN c ELSE [c EXCEPT !.title = StrArg(rec, 1)]
+    [] rec.name = "get_layer_surface" ->
+         IF StrArg(rec, 5) = <<>> THEN c ELSE [c EXCEPT !.title = StrArg(rec, 5)]
+    [] OTHER -> c
 
 \* S.show: pass non-message lines through (FALSE under --supress)
 InitState(filter, brk, show) ==
@@ -113,8 +134,9 @@ MsgStep(S, ev) ==
           out |-> outNew \o (IF S.show THEN <<ItErrText>> ELSE <<>>), oc |-> "error"]
     [] r.oc = "ok" ->
          LET h    == Len(S1.hist) + 1
-             S2   == [S1 EXCEPT !.conns[k].db = r.db, !.conns[k].n = @ + 1,
+             S2a  == [S1 EXCEPT !.conns[k].db = r.db, !.conns[k].n = @ + 1,
                                 !.hist = Append(@, r.rec), !.hconn = Append(@, k), !.hdy = Append(@, dy)]
+             S2   == [S2a EXCEPT !.conns[k] = Titled(@, r.rec)]
              lo   == SelectedLo(S2, k, r.rec)
              hi   == SelectedHi(S2, k, r.rec)
              show == IF hi THEN ShowItems(S2, h, t, dy, ~lo) ELSE <<>>
@@ -198,9 +220,18 @@ ListItems(S, hs, prevT, prevDy) ==
                   ELSE <<>>
        IN sep \o <<ItMsg(h, FALSE)>> \o ListItems(S, Tail(hs), t, S.hdy[h])
 
+\* `connection X`: by name first, then by application id, both regardless of case; the earliest connection wins
+LowerOf(ch) == IF \E i \in 1..26 : Capitals[i] = ch THEN Alphabet[CHOOSE i \in 1..26 : Capitals[i] = ch] ELSE ch
+LowerSeq(cs) == [i \in 1..Len(cs) |-> LowerOf(cs[i])]
 ConnIdxByName(S, chars) ==
-  LET c == {k \in 1..Len(S.conns) : ConnName(S.conns[k]) = chars}
-  IN IF c = {} THEN 0 ELSE CHOOSE k \in c : TRUE
+  LET byName == {k \in 1..Len(S.conns) : LowerSeq(ConnName(S.conns[k])) = LowerSeq(chars)}
+      byApp  == {k \in 1..Len(S.conns) : S.conns[k].appid # <<>> /\ LowerSeq(S.conns[k].appid) = LowerSeq(chars)}
+      first(c) == CHOOSE k \in c : \A j \in c : k <= j
+  IN IF byName # {} THEN first(byName) ELSE IF byApp # {} THEN first(byApp) ELSE 0
+
+ItConnLine(S, k) == [k |-> "connline", ord |-> S.conns[k].ord, role |-> S.conns[k].role, title |-> S.conns[k].title,
+                     open |-> S.conns[k].open, n |-> S.conns[k].n, cur |-> S.sel = k, may |-> FALSE]
+ConnLines(S) == [k \in 1..Len(S.conns) |-> ItConnLine(S, k)]
 
 CmdStep(S, ev) ==
   CASE ev.c = "filter" ->
@@ -229,10 +260,10 @@ CmdStep(S, ev) ==
                   out |-> err \o <<ItInfo("list")>> \o ListItems(S, r.listed, NoTime, TRUE)
                           \o <<ItCounts(r.matched, r.didnt, r.unchecked)>>, oc |-> "cmd"]
     [] ev.c = "conn" ->
-         IF ev.arg = "" THEN [S |-> S, out |-> <<ItInfo("conns")>>, oc |-> "cmd"]
+         IF ev.arg = "" THEN [S |-> S, out |-> ConnLines(S), oc |-> "cmd"]
          ELSE IF ev.arg = "all" THEN [S |-> [S EXCEPT !.sel = 0], out |-> <<ItInfo("sel")>>, oc |-> "cmd"]
          ELSE LET k == ConnIdxByName(S, CharsOf(ev.arg))
-              IN IF k = 0 THEN [S |-> S, out |-> <<ItError("conn"), ItInfo("conns")>>, oc |-> "cmd"]
+              IN IF k = 0 THEN [S |-> S, out |-> <<ItError("conn")>> \o ConnLines(S), oc |-> "cmd"]
                  ELSE [S |-> [S EXCEPT !.sel = k], out |-> <<ItInfo("sel")>>, oc |-> "cmd"]
     [] ev.c = "resume" -> [S |-> [S EXCEPT !.paused = FALSE, !.pk = TRUE], out |-> <<>>, oc |-> "cmd"]
     [] ev.c = "quit"   -> [S |-> [S EXCEPT !.quit = TRUE], out |-> <<>>, oc |-> "cmd"]
